@@ -49,10 +49,28 @@ class Directive:
         self.payload = []
 
 
+def unit_text(path):
+    """Unit text; `@@derive <unit> <fn> <hints file> <rlimit>` = the other unit with the external_body
+    attribute of <fn> replaced by the proof hints (the function's body is verified in this unit against
+    the same contract text, and assumed under that contract in the other one)."""
+    text = open(path).read()
+    m = re.search(r'^@@derive\s+(\S+)\s+(\S+)\s+(\S+)\s+(\d+)\s*$', text, re.M)
+    if not m:
+        return text
+    base = open(os.path.join(os.path.dirname(path), m.group(1))).read()
+    hints = open(os.path.join(VERIF, 'verus', m.group(3))).read().rstrip('\n')
+    pat = re.compile(r'(@@fn ' + re.escape(m.group(2)) + r'\n)@@attr #\[verifier::external_body\][^\n]*\n')
+    if not pat.search(base):
+        raise SystemExit(f'{path}: @@derive target fn {m.group(2)} with external_body not found in {m.group(1)}')
+    base = pat.sub(lambda mm: mm.group(1) + f'@@attr #[verifier::rlimit({m.group(4)})]\n' + hints + '\n', base, count=1)
+    head = '\n'.join(l for l in text.split('\n') if l.startswith('@@#'))
+    return head + '\n' + base
+
+
 def parse_unit(path):
     ds = []
     cur = None
-    for n, raw in enumerate(open(path).read().split('\n'), 1):
+    for n, raw in enumerate(unit_text(path).split('\n'), 1):
         if raw.startswith('@@#'):
             continue
         if raw.startswith('@@'):
@@ -243,8 +261,14 @@ def generate(unit_path):
 
     def collect_subs(j):
         subs = {}
-        while j < len(ds) and ds[j].name in ('contract', 'loop', 'hint', 'sub', 'retname', 'attr'):
-            subs.setdefault(ds[j].name, []).append(ds[j])
+        while j < len(ds) and ds[j].name in ('contract', 'contractfile', 'loop', 'hint', 'sub', 'retname', 'attr'):
+            d = ds[j]
+            if d.name == 'contractfile':
+                # contract text shared between units (e.g. a function assumed in one unit and verified in another)
+                d2 = Directive('contract', '', d.lineno)
+                d2.payload = open(os.path.join(VERIF, 'verus', d.arg)).read().rstrip('\n').split('\n')
+                d = d2
+            subs.setdefault(d.name, []).append(d)
             j += 1
         return subs, j
 
